@@ -16,7 +16,7 @@ RULE = ('cases = trajectories (1-4 atoms, 1-8 frames, raw coordinates on the 2^-
 TRUSTED = ['numpy multiplication/truncation exact on the dyadic grid (x * n has at most 12 + 20 significant bits)',
            'primitive floats of the Coq kernel for the round-trip sweep theorem (bound 4096 in the statement)']
 ASSUMPTIONS = []
-KINDS = ['cubic', 'ortho', 'mono', 'hexlike', 'tri', 'tri_full']
+KINDS = ['cubic', 'ortho', 'mono', 'hexlike', 'hex', 'tri', 'tri_full']
 
 
 def gen_cases(rng, tier):
